@@ -301,6 +301,10 @@ def accept_pass(crate: Crate, target_dir, max_rounds=12):
                 rejected.setdefault(d["uid"], []).append(d["rendered"] or d["message"])
             else:
                 herrors.setdefault((d["uid"], d["where"]), []).append(d["rendered"] or d["message"])
+        # a declaration that was rejected takes its harnesses with it (their "cannot find type" errors
+        # are a consequence, not an API-shape finding)
+        for key in [k for k in herrors if k[0] in rejected]:
+            del herrors[key]
         new_units = []
         for u in crate.units:
             if u.uid in rejected:
